@@ -141,24 +141,20 @@ def prepare(prop, need_model=True, need_harness=True, profiles=('release',)):
         m = re.search(r'File "([^"]+)", line (\d+)', out)
         where = ('%s:%s' % (m.group(1), m.group(2))) if m else target
         raise Obligation('Coq proof obligation at ' + where, out[-3000:])
-    # Print Assumptions output is produced at compile time; keep a copy per property
-    pa_file = os.path.join(BUILD, 'assumptions_%s.txt' % prop)
-    if 'Closed under the global context' in out or 'Axioms:' in out:
-        open(pa_file, 'w').write(out)
-    elif not os.path.exists(pa_file):
-        # target was up to date: force one recompilation of the Props file only
-        vo = os.path.join(COQ, target)
-        if os.path.exists(vo):
-            os.remove(vo)
-        rc, out = sh(['make', '-j%d' % NPROC, target], cwd=COQ, timeout=3000)
-        if rc != 0:
-            raise Obligation('Coq proof obligation at ' + target, out[-3000:])
-        open(pa_file, 'w').write(out)
-    pa = open(pa_file).read()
+    # Print Assumptions for every theorem of the property file, re-run on every check
     src = open(os.path.join(COQ, 'Props', prop + '.v')).read()
     src_nc = re.sub(r'\(\*.*?\*\)', '', src, flags=re.S)
     info['theorems'] = re.findall(r'^\s*(?:Theorem|Lemma|Example|Corollary)\s+(\w+)', src_nc, flags=re.M)
-    info['n_print_assumptions'] = len(re.findall(r'Print Assumptions', src_nc))
+    info['n_print_assumptions'] = len(info['theorems'])
+    pa_v = os.path.join(BUILD, 'pa_%s.v' % prop)
+    with open(pa_v, 'w') as f:
+        f.write('From RS.Props Require Import %s.\n' % prop)
+        for t in info['theorems']:
+            f.write('Print Assumptions %s.\n' % t)
+    rc, pa = sh(['coqc', '-Q', 'Gen', 'RS.Gen', '-Q', 'Model', 'RS.Model', '-Q', 'Proofs', 'RS.Proofs', '-Q', 'Props', 'RS.Props',
+                 '-o', os.path.join(BUILD, 'pa_%s.vo' % prop), pa_v], cwd=COQ, timeout=600)
+    if rc != 0:
+        raise Obligation('Print Assumptions run failed for ' + prop, pa[-3000:])
     info['closed'] = pa.count('Closed under the global context')
     axioms = re.findall(r'^Axioms:\n((?:.+\n)+)', pa, flags=re.M)
     info['axioms'] = axioms
